@@ -1504,7 +1504,7 @@ func (lb *LB) proveWith(goals []cons, facts []cons, subst map[lvar]lin, depth in
 			}
 		}
 	}
-	if depth >= 4 {
+	if depth >= lbDepthLimit {
 		return false
 	}
 	for _, g := range failing {
@@ -2232,6 +2232,9 @@ func loadRep(v ssa.Value) ssa.Value {
 }
 
 var lbSite bool
+
+// lbDepthLimit: nesting of case splits the prover may try (quick: 4, thorough: 5)
+var lbDepthLimit = 4
 
 // lbOvfMode: LBs created by bidx and the C18 rules treat 64-bit arithmetic as possibly overflowing
 var lbOvfMode bool
